@@ -88,31 +88,72 @@ ATOMS = [
     ("CONST", -3), ("CONST", 2.5), ("CONST", "a b"), ("CONST", "AC"),
     ("ENUM", ["A", "B"]), ("ENUM", ["ACTIVE", "ACTIVATING", "DONE"]), ("ENUM", [1, 2, 3]), ("ENUM", [True, False]),
     ("ENUM", ["X"]), ("ENUM", [10, 20]),
+    # member sets in which one member is a proper prefix of another (exact match must win over the prefix scan), both orders
+    ("ENUM", ["ACT", "ACTIVE", "DONE"]), ("ENUM", ["ACTIVE", "DONE", "ACT"]), ("ENUM", ["A", "AB", "ABC"]), ("ENUM", ["ABC", "AB", "A"]),
+    ("ENUM", [1, 10, 100]), ("ENUM", [100, 10, 1]),
     ("TYPE", "STRING"), ("TYPE", "NUMBER"), ("TYPE", "BOOLEAN"), ("TYPE", "LIST"), ("TYPE", "FOO"), ("TYPEP", "STRING"),
     ("REGEX", "^[a-z]+$"), ("REGEX", "^\\d{3}$"), ("REGEX", "^A.*Z$"), ("REGEX", "^$"), ("REGEX", "^[0-9-]+$"),
     ("RANGE", 1, 10), ("RANGE", 0, 0), ("RANGE", -5, 5), ("RANGE", 0.5, 2.5), ("RANGE", 0, (1000.0, "1e3")),
-    ("RANGE", 0, 9007199254740992),
+    ("RANGE", 0, 9007199254740992), ("RANGE", -9007199254740992, (9007199254740992.0, "9007199254740992.0")),
+    ("RANGE", 0, (float("inf"), "1e400")), ("RANGE", (float("-inf"), "-1e400"), 0),
     ("MAX_LENGTH", 0), ("MAX_LENGTH", 3), ("MAX_LENGTH", 5), ("MIN_LENGTH", 0), ("MIN_LENGTH", 1), ("MIN_LENGTH", 3),
     ("LITERAL",), ("LANG", "python"),
 ]
 KINDS13 = ["REQ", "OPT", "CONST", "ENUM", "TYPE", "REGEX", "DIR", "APPEND_ONLY", "RANGE", "MAX_LENGTH", "MIN_LENGTH", "DATE", "ISO8601"]
-DOC_ATOMS = [a for a in ATOMS if a[0] not in ("TYPEP", "LITERAL", "LANG")]
+DOC_ATOMS = [a for a in ATOMS if a[0] not in ("TYPEP", "LITERAL", "LANG")
+             and not (a[0] == "RANGE" and any(isinstance(pv(b), float) and math.isinf(pv(b)) for b in a[1:]))]
 
 
 def kind_of(c):
     return "TYPE" if c[0] == "TYPEP" else c[0]
 
 
+def enum_probe_values(member_sets):
+    """For ENUM member sets (python values): every member (as typed and as its text), every proper prefix of a member's text
+    (the empty string included; unique, ambiguous, or itself a member), and non-matches (a member extended, a member
+    lower-cased, an unrelated text)."""
+    out = []
+    for ms in member_sets:
+        for m in ms:
+            if isinstance(m, bool) or not isinstance(m, (str, int)):
+                continue
+            s = str(m)
+            out.append(m)
+            out.append(s)
+            out += [s[:i] for i in range(len(s))]
+            out.append(s + "Z")
+            if s.lower() != s:
+                out.append(s.lower())
+    out.append("ZZ")
+    return out
+
+
+def dedupe_values(vals):
+    seen, out = set(), []
+    for v in vals:
+        try:
+            k = (type(v).__name__, repr(v))
+        except Exception:  # noqa
+            k = ("id", id(v))
+        if k not in seen:
+            seen.add(k)
+            out.append(v)
+    return out
+
+
 def make_values():
     from octave_mcp.core.ast_nodes import LiteralZoneValue
-    vals = [None, True, False, 0, 1, 5, 10, 11, -3, 3, 20, 2 ** 53 + 1, 1.0, 2.5, 0.5, 10.0, 1000.0, -0.0, 10.5, float("inf"), float("nan"),
-            "", "A", "AC", "ACT", "ACTIVE", "ACTIVATING", "B", "X", "abc", "abc\n", "ABZ", "123", "5", " 5 ", "1e2", "nan", "inf", "1_0",
+    vals = [None, True, False, 0, 1, 5, 10, 11, -3, 3, 20, 2 ** 53 - 1, 2 ** 53, 2 ** 53 + 1, -(2 ** 53) - 1,
+            1.0, 2.5, 0.5, 10.0, 1000.0, -0.0, 10.5, 9007199254740992.0, 1e308, float("inf"), float("-inf"), float("nan"),
+            "", "A", "AC", "ACT", "ACTIVE", "ACTIVATING", "B", "X", "abc", "abc\n", "ABZ", "123", "5", " 5 ", "1e2", "nan", "NaN", "inf",
+            "-inf", "1e999", "9007199254740993", "1_0",
             "true", "True", "None", "a b", "2024-02-29", "2023-02-29", "2024-13-01", "0000-01-01", "2024-02-29\n", "2024-1-01",
             "2024-01-01T10:00:00Z", "2024-01-01T10:00:00+01:00", "2024-01-01T25:00:00", "hello", "a\x00b", "xxxxxx", "1", "10", "-3",
             [], ["a"], [1, 2, 3], ["a", "b", "c", "d"], [[1], "x"], {}, {"a": 1},
             LiteralZoneValue(content="x = 1", info_tag="python"), LiteralZoneValue(content="", info_tag=None),
-            LiteralZoneValue(content="{}", info_tag="JSON"), 10 ** 400]
-    return vals
+            LiteralZoneValue(content="{}", info_tag="JSON"), 10 ** 400, -(10 ** 400)]
+    vals += enum_probe_values([[pv(x) for x in a[1]] for a in ATOMS if a[0] == "ENUM"])
+    return dedupe_values(vals)
 
 
 def vkind(v):
@@ -137,7 +178,43 @@ def vkind(v):
 
 
 def vrepr(v):
-    return repr(v) if vkind(v) != "int" or abs(v) < 10 ** 30 else "10**%d" % (len(str(v)) - 1)
+    """replayable text of a value (value_of_expr reads it back): huge powers of ten as +-10**k, everything else repr()"""
+    if vkind(v) == "int" and abs(v) >= 10 ** 30:
+        k = len(str(abs(v))) - 1
+        if abs(v) == 10 ** k:
+            return ("-" if v < 0 else "") + "10**%d" % k
+    return repr(v)
+
+
+def value_of_expr(s):
+    """inverse of vrepr for scalars / lists / dicts, plus the spellings used by corpus files: nan, inf, -inf,
+    and integer arithmetic with ** + - (e.g. 2**53+1, -10**400).  Raises ValueError on anything else."""
+    import ast as _ast
+    s = s.strip()
+    if s in ("nan", "inf", "-inf"):
+        return float(s)
+
+    def ev(n):
+        if isinstance(n, _ast.Constant) and isinstance(n.value, int) and not isinstance(n.value, bool):
+            return n.value
+        if isinstance(n, _ast.UnaryOp) and isinstance(n.op, _ast.USub):
+            return -ev(n.operand)
+        if isinstance(n, _ast.BinOp) and isinstance(n.op, (_ast.Pow, _ast.Add, _ast.Sub)):
+            a, b = ev(n.left), ev(n.right)
+            if isinstance(n.op, _ast.Pow):
+                if not 0 <= b <= 5000:
+                    raise ValueError("exponent")
+                return a ** b
+            return a + b if isinstance(n.op, _ast.Add) else a - b
+        raise ValueError("not integer arithmetic")
+    try:
+        return _ast.literal_eval(s)
+    except (ValueError, SyntaxError):
+        pass
+    try:
+        return ev(_ast.parse(s, mode="eval").body)
+    except SyntaxError as e:
+        raise ValueError(str(e))
 
 
 # =====================================================================================================
@@ -401,17 +478,16 @@ def enc_val(v):
 
 
 def oracle_of(v):
-    """(str(v), float(v) | None, fromiso ok, fromiso(Z) ok) -- computed with the real Python"""
+    """(str(v), float(v) for strings | None, fromiso ok, fromiso(Z) ok) -- computed with the real Python.
+    Ints and floats need no float oracle: RANGE keeps them as they are (ints of any size are in the model)."""
     from datetime import datetime
     s = str(v)
     fl = "~"
-    if isinstance(v, str) or (isinstance(v, int) and not isinstance(v, bool) and abs(v) > 2 ** 53):
+    if isinstance(v, str):
         try:
             fl = enc_fl(float(v))
         except (ValueError, TypeError):
             fl = "~"
-        except OverflowError:
-            raise OutOfModel("float(int) overflows")
     try:
         datetime.fromisoformat(s)
         a = "1"
@@ -477,39 +553,10 @@ def impl_eval(chain_obj, v):
 
 
 # ---- finding predicates (precise clauses) ----
-def f_range_nan(c, v):
-    if kind_of(c) != "RANGE" or isinstance(v, bool):
-        return False
-    if isinstance(v, float):
-        return math.isnan(v)
-    if isinstance(v, str):
-        try:
-            return math.isnan(float(v))
-        except ValueError:
-            return False
-    return False
-
-
-def f_range_overflow(c, v):
-    if kind_of(c) != "RANGE" or isinstance(v, bool) or not isinstance(v, int):
-        return False
-    try:
-        float(v)
-        return False
-    except OverflowError:
-        return True
-
-
-def f_range_rounding(c, v):
-    if kind_of(c) != "RANGE" or isinstance(v, bool) or not isinstance(v, int) or abs(v) <= 2 ** 53:
-        return False
-    try:
-        return Fraction(float(v)) != v
-    except OverflowError:
-        return False
-
-
-FINDING_PRED = [("C08-range-nan", f_range_nan), ("C08-range-overflow", f_range_overflow), ("C08-range-bigint-rounding", f_range_rounding)]
+# No chain-level finding is open.  The three RANGE defects (nan accepted, OverflowError on ints above the double range,
+# bound test on the rounded float(int)) were repaired by repo commit 8e26d46; their witnesses are corpus cases
+# 006-011 that must PASS, and any such deviation is now an unattributed property failure (VIOLATION).
+FINDING_PRED = []
 
 
 def classify_member(c, v):
@@ -636,18 +683,18 @@ def gen_chains(ctx):
     return chains
 
 
-def run_chains(ctx, have_model):
-    values = make_values()
+def run_chain_cases(ctx, have_model, chains, values, label, select=None):
+    """Judge every (chain, value) case: IMPL vs REF + structural clauses (always), IMPL vs MODEL (when the driver built).
+    `select[ci]` = indexes into `values` for chain ci (None = all values)."""
     judge = ChainJudge(ctx, values)
     rng = ctx.rng
-    chains = gen_chains(ctx)
     oracles = []
     for v in values:
         try:
             oracles.append((oracle_of(v), enc_val(v)))
         except OutOfModel:
             oracles.append(None)
-    n_cases = n_model = n_oom = 0
+    st = {"cases": 0, "model": 0, "oom": 0}
     batch_lines, batch_meta = [], []
 
     def flush():
@@ -666,7 +713,7 @@ def run_chains(ctx, have_model):
         batch_lines, batch_meta = [], []
 
     seen_texts = set()
-    for chain in chains:
+    for ci, chain in enumerate(chains):
         text = "∧".join(text_of(c) for c in chain)
         obj = judge.parse(text)
         if isinstance(obj, Exception):
@@ -683,40 +730,130 @@ def run_chains(ctx, have_model):
         ctx.hist("chain_len", len(chain))
         for c in chain:
             ctx.hist("kind", kind_of(c))
-        for vi, v in enumerate(values):
+        for vi in (range(len(values)) if select is None else select[ci]):
+            v = values[vi]
             impl = impl_eval(obj, v)
             perm_impl = impl_eval(perm_obj, v) if perm_obj is not None and not isinstance(perm_obj, Exception) else None
-            n_cases += 1
+            st["cases"] += 1
             judge.judge(chain, vi, impl, perm_impl)
             if first_time:
-                ctx.nontrivial((text, vi))
+                ctx.nontrivial((label, text, vi))
             ctx.hist("value_kind", vkind(v))
             ctx.hist("impl_verdict", "raises" if impl[0] == "EXC" else ("accept" if impl[0] else "reject:" + ",".join(sorted(set(impl[1])))))
             if have_model:
                 if oracles[vi] is None:
-                    n_oom += 1
+                    st["oom"] += 1
                     continue
                 try:
                     line = "ev %s %s %s" % (oracles[vi][0], oracles[vi][1], enc_chain(obj.constraints, v))
                 except OutOfModel:
-                    n_oom += 1
+                    st["oom"] += 1
                     continue
                 batch_lines.append(line)
                 batch_meta.append((text, vi, impl))
-                n_model += 1
+                st["model"] += 1
                 if len(batch_lines) >= 100000:
                     flush()
     flush()
-    ctx.count(n_cases)
-    ctx.extra["chain_value_cases"] = n_cases
-    ctx.extra["chain_value_cases_in_model"] = n_model
-    ctx.extra["chain_value_cases_out_of_model"] = n_oom
-    ctx.extra["distinct_chains"] = len(seen_texts)
+    st["distinct_chains"] = len(seen_texts)
+    return st, judge
+
+
+def run_chains(ctx, have_model):
+    values = make_values()
+    st, judge = run_chain_cases(ctx, have_model, gen_chains(ctx), values, "pool")
+    ctx.count(st["cases"])
+    ctx.extra["chain_value_cases"] = st["cases"]
+    ctx.extra["chain_value_cases_in_model"] = st["model"]
+    ctx.extra["chain_value_cases_out_of_model"] = st["oom"]
+    ctx.extra["distinct_chains"] = st["distinct_chains"]
     ctx.sample({"chain": "REQ∧ENUM[ACTIVE,ACTIVATING,DONE]∧MAX_LENGTH[5]", "value": "ACTIV",
                 "impl": list(impl_eval(judge.parse("REQ∧ENUM[ACTIVE,ACTIVATING,DONE]∧MAX_LENGTH[5]"), "ACTIV"))})
     ctx.sample({"chain": "CONST[1]∧CONST[2]∧CONST[1]", "value": 1,
                 "impl": list(impl_eval(judge.parse("CONST[1]∧CONST[2]∧CONST[1]"), 1))})
     return values, judge
+
+
+# ---- ENUM exact / unique-prefix / ambiguous / no-match: the whole class, systematically -----------------------------------
+ENUM_STEMS = ["A", "ACT", "DONE", "ab", "Q_x", "x1", "v1.0", "10", "7"]
+ENUM_TAILS = ["B", "IVE", "C", "x", "_1", "0", ".1", "ING"]
+
+
+def gen_enum_sets(ctx):
+    """ENUM member sets (python values) in which some member is a proper prefix of another -- nested 2 or 3 deep, with
+    unrelated members, a duplicated member now and then, in random order; string sets and int sets; plus prefix-free
+    control sets."""
+    rng = ctx.rng
+    sets = [["ACT", "ACTIVE", "DONE"], ["ACTIVE", "ACT", "DONE"], ["DONE", "ACTIVE", "ACT"], ["A", "AB", "ABC"], ["ABC", "A", "AB"],
+            [1, 10, 100], [100, 1, 10], [10, 1], [7, 70, 8], ["ACTIVE", "ARCHIVED"], ["A", "A", "B"], ["x1", "x10", "x100", "y"],
+            ["v1.0", "v1.0.1", "v2.0"], [1, "1x", 12]]
+    for _ in range(ctx.scale(40, 600)):
+        numeric = rng.random() < 0.3
+        if numeric:
+            base = rng.choice([1, 2, 7, 10, 12, 90])
+            ms = [base]
+            for _ in range(rng.choice([1, 1, 2])):
+                ms.append(int(str(ms[-1]) + rng.choice("0123456789")))
+            ms += rng.sample([3, 4, 55, 600, 8], rng.choice([0, 1, 2]))
+        else:
+            w = rng.choice(ENUM_STEMS)
+            ms = [w]
+            for _ in range(rng.choice([1, 1, 2])):
+                ms.append(ms[-1] + rng.choice(ENUM_TAILS))
+            ms += rng.sample(["DONE", "Z", "other", "B", "ZED"], rng.choice([0, 1, 2]))
+            if rng.random() < 0.1:
+                ms.append(rng.choice(ms))
+        rng.shuffle(ms)
+        sets.append(ms)
+    return sets
+
+
+def run_enum_focus(ctx, have_model):
+    """(3) of the ENUM clause: for every generated member set, every member / every proper prefix / non-matches, alone and
+    inside chains, on the implementation against REF (exact match wins; else unique prefix; ambiguous -> E006; none -> E005)."""
+    rng = ctx.rng
+    sets = gen_enum_sets(ctx)
+    values, index = [], {}
+
+    def vi_of(v):
+        k = (type(v).__name__, repr(v))
+        if k not in index:
+            index[k] = len(values)
+            values.append(v)
+        return index[k]
+
+    chains, select = [], []
+    for ms in sets:
+        e = ("ENUM", ms)
+        probes = dedupe_values(enum_probe_values([ms]))
+        vis = [vi_of(v) for v in probes]
+        numeric = all(isinstance(m, int) for m in ms)
+        maxlen = max(len(str(m)) for m in ms)
+        member = rng.choice(ms)
+        wrappers = [[e], [("REQ",), e], [("OPT",), e], [e, ("TYPE", "NUMBER" if numeric else "STRING")],
+                    [("TYPE", "NUMBER" if numeric else "STRING"), e, ("MAX_LENGTH", maxlen)] if not numeric else [("TYPE", "NUMBER"), e, ("RANGE", 0, 10 ** 6)],
+                    [e, ("MIN_LENGTH", 1)], [e, ("CONST", member)], [("REQ",), e, ("MAX_LENGTH", maxlen + 1), ("MIN_LENGTH", 0)]]
+        if ctx.quick():
+            wrappers = wrappers[:2] + rng.sample(wrappers[2:], 3)
+        for w in wrappers:
+            chains.append(w)
+            select.append(vis)
+        ctx.hist("enum_set", "%s/%d members" % ("int" if numeric else "str", len(ms)))
+    # what the probes are, by the reference's own classification (input distribution of this search)
+    for ms in sets:
+        texts = [str(m) for m in ms]
+        for v in dedupe_values(enum_probe_values([ms])):
+            s = str(v)
+            n = sum(1 for x in texts if x.startswith(s))
+            cls = ("member+proper-prefix-of-another" if any(x != s and x.startswith(s) for x in texts) else "member") if s in texts else \
+                ("unique-prefix" if n == 1 else ("ambiguous-prefix" if n > 1 else "no-match"))
+            ctx.hist("enum_probe", cls)
+    st, _ = run_chain_cases(ctx, have_model, chains, values, "enum", select)
+    ctx.count(st["cases"])
+    ctx.extra["enum_focus_sets"] = len(sets)
+    ctx.extra["enum_focus_cases"] = st["cases"]
+    ctx.extra["enum_focus_cases_in_model"] = st["model"]
+    ctx.sample({"chain": "REQ∧ENUM[ACTIVE,DONE,ACT]", "value": "ACT", "documented": [True, []]})
 
 
 def run_side_checks(ctx, have_model, values):
@@ -727,7 +864,7 @@ def run_side_checks(ctx, have_model, values):
     from octave_mcp.core.constraints import ConstraintChain
     rng = ctx.rng
     # str(atom)
-    atoms = [v for v in values if vkind(v) in ("none", "bool", "int", "str", "float") and not (vkind(v) == "int" and abs(v) > 10 ** 300)]
+    atoms = [v for v in values if vkind(v) in ("none", "bool", "int", "str", "float")]
     atoms += [rng.randint(-10 ** 20, 10 ** 20) for _ in range(200)]
     res = run_driver("cst", ["pystr " + enc_val(a) for a in atoms])
     for a, r in zip(atoms, res):
@@ -735,7 +872,9 @@ def run_side_checks(ctx, have_model, values):
         if dec_str(r) != str(a):
             ctx.correspondence_failure({"value": vrepr(a), "model": dec_str(r), "impl": str(a)}, "str(atom) differs from the model")
     # Python == on atoms
-    pairs = [(a, b) for a in atoms[:45] for b in atoms[:45]]
+    big = [2 ** 53, 2 ** 53 + 1, -(2 ** 53) - 1, 9007199254740992.0, -9007199254740992.0, 10 ** 400, -(10 ** 400), 1e308,
+           float("inf"), float("-inf"), float("nan"), True, 1, 1.0]
+    pairs = [(a, b) for a in atoms[:45] for b in atoms[:45]] + [(a, b) for a in big for b in big]
     res = run_driver("cst", ["eqb %s %s" % (enc_val(a), enc_val(b)) for a, b in pairs])
     for (a, b), r in zip(pairs, res):
         ctx.count()
@@ -821,7 +960,8 @@ def doc_value_text(v):
 
 
 DOC_VALUES = ["A", "ACTIVE", "ACT", "abc", "", "123", "5", "nan", "2024-02-29", "2024-02-30", "a b", "X", 1, 5, 11, -3, 2.5, 1.0, 0,
-              True, False, None, ["a"], ["a", "b", "c", "d"], [1, 2, 3], "2024-01-01T10:00:00Z", "hello"]
+              True, False, None, ["a"], ["a", "b", "c", "d"], [1, 2, 3], "2024-01-01T10:00:00Z", "hello",
+              "AB", "ABC", "ACTI", "ACTIVATING", "DONE", "D", "B", "1", "10", 10, 100, 2, 20]
 
 
 def schema_text(name, policy, fields):
@@ -840,6 +980,7 @@ def instance_text(name, assigns):
 
 def run_documents(ctx, have_model):
     from octave_mcp.core.ast_nodes import Assignment, Block
+    from octave_mcp.core.constraints import ConstraintChain
     from octave_mcp.core.parser import parse
     from octave_mcp.core.validator import Validator
     from octave_mcp.mcp.validate import ValidateTool
@@ -956,6 +1097,34 @@ def run_documents(ctx, have_model):
                                                  "unknown field under WARN is listed in validation_errors / makes the document INVALID", finding=fid)
                             if si == 0 and ii == 0:
                                 witness_done = True
+                # (d) per-field verdict: the errors naming a present schema field are the documented verdict of its chain on
+                #     the value the implementation itself read (only when the schema front end read the chain as generated)
+                for fname, ch in fields:
+                    v = present.get(fname)
+                    if v is None or vkind(v) not in ("bool", "int", "float", "str", "list"):
+                        continue
+                    fd = sd.fields[fname]
+                    real = fd.pattern.constraints.constraints if fd.pattern and fd.pattern.constraints else None
+                    try:
+                        same = real == ConstraintChain.parse("∧".join(text_of(c) for c in ch)).constraints
+                    except Exception:  # noqa
+                        same = False
+                    if not same:
+                        ctx.hist("doc_clause", "field-chain-not-read-as-generated")
+                        continue
+                    want, wcodes = ref_chain(ch, v)
+                    got_codes = named(verrs, fname)
+                    ctx.hist("doc_clause", "field-verdict-" + {True: "accept", False: "reject", None: "undecided"}[want])
+                    fcase = dict(case, field=fname, field_chain="∧".join(text_of(c) for c in ch), field_value=vrepr(v),
+                                 field_value_kind=vkind(v), field_errors=got_codes, documented=want)
+                    if want is True and got_codes:
+                        ctx.property_failure(fcase, "document field accepted by its documented chain semantics gets errors %s" % got_codes)
+                    elif want is False and not got_codes:
+                        ctx.property_failure(fcase, "document field rejected by its documented chain semantics gets no error naming it")
+                    elif want is False and wcodes == "conflict" and any(c != CODE["CONFLICT"] for c in got_codes):
+                        ctx.property_failure(fcase, "document field with a conflicting chain does not report only E999")
+                    elif want is False and isinstance(wcodes, list) and got_codes != wcodes:
+                        ctx.property_failure(dict(fcase, documented_codes=wcodes), "document field error codes differ from the first failing member's")
                 # (c) correspondence of the whole section with the model (Validator directly: keeps severities)
                 direct = Validator(schema=None).validate(doc, strict=False, section_schemas={sd.name: sd})
                 impl_set = sorted((e.code, e.field_path, e.severity) for e in direct)
@@ -1001,16 +1170,22 @@ def run_documents(ctx, have_model):
 # =====================================================================================================
 # corpus + entry point
 # =====================================================================================================
+def corpus_value(rec):
+    """value of a corpus / witness record: "value_expr" (see value_of_expr: nan, 10**400, 2**53+1, ...) or literal "value" """
+    return value_of_expr(rec["value_expr"]) if "value_expr" in rec else rec.get("value")
+
+
 def run_corpus(ctx):
-    """finding witnesses (known_findings) and minimised past failures: replayed first, on the implementation."""
+    """finding witnesses (known_findings) and minimised past failures / witnesses of REPAIRED findings: replayed first, on
+    the implementation.  A corpus case without a "finding" key must pass (verdict and codes as documented) or the run
+    reports a property failure -- this is how a repaired defect that returns becomes a VIOLATION."""
     from octave_mcp.core.constraints import ConstraintChain
     cdir = VERIF / "corpus" / "C08"
-    specials = {"nan": float("nan"), "10**400": 10 ** 400, "2**53+1": 2 ** 53 + 1}
     for fid, f in ctx.known.items():
         w = f["witness"]
         if "chain" not in w:
             continue
-        v = specials.get(w.get("value_expr"), w.get("value"))
+        v = corpus_value(w)
         ctx.count()
         try:
             r = ConstraintChain.parse(w["chain"]).evaluate(v)
@@ -1018,39 +1193,40 @@ def run_corpus(ctx):
         except Exception as e:  # noqa
             got = "raises " + type(e).__name__
         ctx.finding_witness(fid, got != w["documented_valid"])
+    n = 0
     if cdir.exists():
         for p in sorted(cdir.glob("*.json")):
             rec = json.loads(p.read_text())
             if rec.get("kind") != "chain":
                 continue
-            v = specials.get(rec.get("value_expr"), rec.get("value"))
+            v = corpus_value(rec)
             ctx.count()
-            try:
-                r = ConstraintChain.parse(rec["chain"]).evaluate(v)
-                got = [bool(r.valid), [e.code for e in r.errors]]
-            except Exception as e:  # noqa
-                got = ["raises " + type(e).__name__, []]
-            if got != rec["expect"] and not rec.get("finding"):
-                ctx.property_failure({"corpus": p.name, "chain": rec["chain"], "value": repr(v), "impl": got, "documented": rec["expect"]},
-                                     "corpus case: verdict/codes differ from the documented ones")
+            n += 1
+            impl = impl_eval(ConstraintChain.parse(rec["chain"]), v)
+            got = [impl[0], impl[1]] if impl[0] != "EXC" else ["raises " + impl[1], []]
+            ctx.hist("corpus", "pass" if got == rec["expect"] else "fail")
+            fid = rec.get("finding")
+            if got != rec["expect"] and not (fid and fid in ctx.known):
+                ctx.property_failure({"corpus": p.name, "chain": rec["chain"], "value": vrepr(v), "value_kind": vkind(v),
+                                      "impl": list(impl), "documented": rec["expect"], "fixed_by": rec.get("fixed_by")},
+                                     "corpus case %s: %s on %s gives %s, documented %s" % (p.name, rec["chain"], vrepr(v), got, rec["expect"]))
+    ctx.extra["corpus_cases"] = n
 
 
 def replay(ctx, case):
     """./check C08 --replay <file>: re-run a recorded failing chain case on the implementation; 1 = still as recorded."""
-    import ast as _ast
     from octave_mcp.core.constraints import ConstraintChain
     c = case.get("case", case)
     if "chain" not in c:
         print("replay: document cases are re-run by the generator (seed %s); recorded: %s" % (case.get("seed"), case.get("what")))
         return 2
-    specials = {"nan": float("nan"), "inf": float("inf"), "10**400": 10 ** 400}
     try:
-        v = specials[c["value"]] if c["value"] in specials else _ast.literal_eval(c["value"])
+        v = value_of_expr(c["value"])
     except Exception:  # noqa
         print("replay: value %r is not a literal" % c["value"])
         return 2
     got = impl_eval(ConstraintChain.parse(c["chain"]), v)
-    print("chain=%s value=%r -> %s   (recorded %s; %s)" % (c["chain"], v, list(got), c.get("impl"), case.get("what")))
+    print("chain=%s value=%s -> %s   (recorded %s; %s)" % (c["chain"], vrepr(v), list(got), c.get("impl"), case.get("what")))
     return 1 if list(got) == c.get("impl") else 0
 
 
@@ -1059,13 +1235,15 @@ def run(ctx):
     ctx.extra["rule"] = (
         "chains: every single atom and (quick: 12%% sample / thorough: all) ordered pairs of a %d-atom pool over the 13 kinds "
         "(+TYPE[LITERAL], LANG) with pooled parameters, plus random chains of length 2-4; each crossed with %d boundary values "
-        "(None, bools, ints incl. bounds/2^53+1/10^400, floats incl. -0.0/inf/nan, strings incl. empty/prefixes/numeric/nan/dates/"
-        "datetimes/NUL/trailing newline, lists, dicts, literal zones). Each case: IMPL vs extracted model (valid+codes), IMPL vs "
+        "(None, bools, ints incl. bounds/2^53-1/2^53/2^53+1/-(2^53)-1/+-10^400, floats incl. -0.0/2^53/1e308/+-inf/nan, strings "
+        "incl. empty/prefixes/numeric/nan/NaN/+-inf/1e999/dates/datetimes/NUL/trailing newline, lists, dicts, literal zones); "
+        "RANGE bounds incl. 2^53 as int and as float and +-inf (1e400); ints of any size, nan and inf are IN the model. Each case: IMPL vs extracted model (valid+codes), IMPL vs "
         "reference evaluator, conjunction/fail-fast/order on IMPL. documents: generated schemas (1-4 fields, chains <=4, 5 policy "
         "spellings) x 8-10 instance blocks that omit/add/duplicate/mistype fields through octave_validate with a temp schema "
         "directory. distinct non-trivial = distinct (chain text, value) pairs and distinct (schema, instance) pairs." % (len(ATOMS), len(make_values())))
     run_corpus(ctx)
     values, _ = run_chains(ctx, have_model)
+    run_enum_focus(ctx, have_model)
     run_side_checks(ctx, have_model, values)
     run_documents(ctx, have_model)
     ctx.assumptions += [
@@ -1077,4 +1255,4 @@ def run(ctx):
         "document level: field names of a schema are distinct, targets are the builtin SELF; the front end (lexer/parser/schema "
         "extractor) is used as is and cases whose block is not read back with the generated keys are skipped and counted",
     ]
-    ctx.trusted_base += ["harness/props/c08.py reference evaluator (written from the property text) and finding predicates"]
+    ctx.trusted_base += ["harness/props/c08.py reference evaluator (written from the property text) and the WARN-policy finding predicate"]
